@@ -229,7 +229,7 @@ type TreeCase struct {
 	NonTriv  bool
 }
 
-var keyPool = []string{"src", "line", ".", "#", ".#", "@", "key", "val_1", "a.b", "a-b", "K9", "héllo", "ключ", "名", "nilkey", "tab", "f", "coalesce", "x"}
+var keyPool = []string{"2nd", "10th", "404s", "5xx_errors", "3rd.party", "1st", "src", "line", ".", "#", ".#", "@", "key", "val_1", "a.b", "a-b", "K9", "héllo", "ключ", "名", "nilkey", "tab", "f", "coalesce", "x"}
 
 // literal alphabets for arguments
 var wordAlphabet = []rune{'a', 'b', 'n', 't', 'r', 'Z', '0', '1', '5', '-', '_', '.', ',', ':', '[', ']', '=', '+', '/', '\'', 'é', '世', '😀', '@', '#', '$', '!', '<', '>'}
@@ -239,7 +239,7 @@ var blankSpecAlphabet = []rune{' ', ' ', '\t', '\n', '\\', '{', '}', '"', 'a', '
 
 func genKeyName(t *rapid.T) string {
 	if rapid.IntRange(0, 3).Draw(t, "keykind") == 0 {
-		k := rapid.StringMatching(`[a-z_][a-z0-9_]{0,6}`).Draw(t, "keygen")
+		k := rapid.StringMatching(`([a-z_]|[0-9]{1,3}[g-np-wyz])[a-z0-9_]{0,6}`).Draw(t, "keygen")
 		if keyOK(k) {
 			return k
 		}
